@@ -26,6 +26,20 @@ EXPLANATION = (
 )
 
 
+
+def _dispatcher_filter(repo, getter: str, default_name: str):
+    """The function the dispatcher hands to get_vehicles / get_requests as `filter_function` (by role, not by name): the nested
+    function of that name where it still exists, else whatever callable is passed."""
+    from .. import rules as _rules
+    solve = repo.func(DISP, "Dispatcher.generate_instructions._solve_assignment")
+    f = repo.func_opt(DISP, f"Dispatcher.generate_instructions._solve_assignment.{default_name}")
+    if f is not None:
+        return f
+    f = _rules.callable_argument(repo, solve, getter, "filter_function")
+    if f is None:
+        raise AnalysisError(f"_solve_assignment: no filter_function handed to {getter}")
+    return f
+
 def run(ctx: Ctx):
     ctx.attempt(in_range, ctx)
     ctx.attempt(schedule_fn, ctx)
@@ -230,7 +244,7 @@ def phases(ctx: Ctx):
 
 
 def dispatcher_avail(ctx: Ctx):
-    fn = ctx.repo.func(DISP, "Dispatcher.generate_instructions._solve_assignment._is_valid_for_dispatch")
+    fn = _dispatcher_filter(ctx.repo, "get_vehicles", "_is_valid_for_dispatch")
     v = fn.params[0]
     acc = gd.accepting_paths(fn)
     ctx.require(len(acc) >= 1, "_is_valid_for_dispatch has no accepting path")
